@@ -22,9 +22,13 @@ func verifTagOf(h jrpc2.Handler) int {
 
 // Harness_C17_map: Map matches the whole name, nothing else.
 func Harness_C17_map() {
-	name := nondetString("name", 3)
-	k1 := nondetString("k1", 3)
-	k2 := nondetString("k2", 3)
+	kl := 3
+	if thorough() {
+		kl = 8
+	}
+	name := nondetString("name", kl)
+	k1 := nondetString("k1", kl)
+	k2 := nondetString("k2", kl)
 	assume(k1 != k2)
 	m := Map{k1: verifTagged(1), k2: verifTagged(2)}
 	got := verifTagOf(m.Assign(context.Background(), name))
@@ -70,11 +74,15 @@ func (v *verifSpy) Assign(_ context.Context, m string) jrpc2.Handler {
 func Harness_C17_servicemap() {
 	max := 4
 	if thorough() {
-		max = 6
+		max = 12
 	}
 	name := nondetString("name", max)
-	svc := nondetString("svc", 2)
-	other := nondetString("other", 2)
+	sl := 2
+	if thorough() {
+		sl = 4
+	}
+	svc := nondetString("svc", sl)
+	other := nondetString("other", sl)
 	assume(svc != other)
 	a, b := &verifSpy{tag: 1}, &verifSpy{tag: 2}
 	m := ServiceMap{svc: a, other: b}
@@ -101,7 +109,11 @@ func Harness_C17_servicemap() {
 
 // Harness_C17_nested: two levels of ServiceMap; Names sorted and complete.
 func Harness_C17_nested() {
-	name := nondetString("name", 5)
+	nl := 5
+	if thorough() {
+		nl = 12
+	}
+	name := nondetString("name", nl)
 	leaf := &verifSpy{tag: 7}
 	m := ServiceMap{"a": ServiceMap{"b": leaf}, "c": Map{"x": verifTagged(3), "": verifTagged(4)}}
 	got := verifTagOf(m.Assign(context.Background(), name))
